@@ -199,6 +199,12 @@ def oracle_network(case, rec):
         rec.close(pc.node_weights, w[p], "permuted_copy_weights", rtol=0)
     connected = G.is_connected(A) and not directed and n >= 3 and g["edges"]
     names = zero_arg_methods(net)
+    # case-dependent order (the same on both objects)
+    from vp.pbt import case_hash
+    hk = int(case_hash(case)[:8], 16)
+    names = [names[i] for i in sorted(
+        range(len(names)), key=lambda i: (hk * (2 * i + 1) + 7919 * i)
+        % 1000003)]
     heavy = case.get("heavy", True)
     for name in names:
         if name in SPECTRAL and not connected:
